@@ -187,6 +187,12 @@ func runC12(res *lib.Result, tier string, seed int64, args []string) error {
 		if err != nil {
 			return err
 		}
+		d3 := lib.ScratchDir(fmt.Sprintf("c12b%d", i))
+		err = c12Multi(res, d3, genMemberWorkspace(r.Fork(77)), "member", i)
+		os.RemoveAll(d3)
+		if err != nil {
+			return err
+		}
 		d2 := lib.ScratchDir(fmt.Sprintf("c12a%d", i))
 		err = c12Multi(res, d2, genAnnotWorkspace(r), "annot", i)
 		os.RemoveAll(d2)
